@@ -13,6 +13,12 @@ for part in $tmp/part.*; do
       id=$(basename $(dirname $d)); k=$(basename $d)
       r=$(tools/seeded_check.sh $id $d/patch.diff 2>&1 | grep -E "^exit=" | tail -1)
       case "$r" in exit=1) v="caught (VIOLATION)";; exit=0) v="MISSED";; *) v="inconclusive ($r)";; esac
+      # a change that belongs to a sibling property (meta.json: sibling_check)
+      sib=$(python3 -c "import json;print(json.load(open('$d/meta.json')).get('sibling_check',''))")
+      if [ "$v" = "MISSED" ] && [ -n "$sib" ]; then
+        r2=$(tools/seeded_check.sh $id $d/patch.diff quick $sib 2>&1 | grep -E "^exit=" | tail -1)
+        case "$r2" in exit=1) v="missed by $id, caught by $sib (VIOLATION)";; exit=0) v="MISSED (also by $sib)";; *) v="missed by $id; $sib inconclusive ($r2)";; esac
+      fi
       s=$(python3 -c "import json;print(json.load(open('$d/meta.json'))['summary'].replace('|','/').replace('\n',' ')[:170])")
       echo "| $id | $k | $v | $s |" >> $part.out
       echo "$id $k $v"
